@@ -899,3 +899,41 @@ func init() {
 		fmt.Println("calls", len(r.Obls), "not discharged", bad)
 	}
 }
+
+func init() {
+	Registry["WFWD"] = func(c *Ctx, r *Report) {
+		ruleForwarding(c, r, func(f *ssa.Function) bool {
+			return f.Synthetic == "" && !strings.HasSuffix(c.Fset.Position(f.Pos()).Filename, "_test.go")
+		})
+		bad := 0
+		for _, o := range r.Obls {
+			if o.Status != Discharged {
+				bad++
+				fmt.Println(o.Status, o.Key, o.Pos)
+			}
+		}
+		fmt.Println("forwardings", len(r.Obls), "not discharged", bad)
+	}
+}
+
+func init() {
+	Registry["WSWAP"] = func(c *Ctx, r *Report) {
+		n := ruleSwappedArgs(c, r, "FWD-SWAP", nil)
+		fmt.Println("pairs", n)
+		for _, o := range r.Obls {
+			fmt.Println(o.Status, o.Key, o.Pos)
+		}
+	}
+}
+
+func init() {
+	Registry["WSTICKY"] = func(c *Ctx, r *Report) {
+		n := ruleStickyError(c, r)
+		fmt.Println("decoders", n)
+		for _, o := range r.Obls {
+			if o.Status != Discharged {
+				fmt.Println(o.Status, o.Key, o.Pos)
+			}
+		}
+	}
+}
